@@ -815,7 +815,12 @@ fn extract<'tcx>(tcx: TyCtxt<'tcx>) {
                             ])
                         })
                         .collect();
-                    vs.push(J::Obj(vec![("name", J::s(var.name.to_string())), ("fields", J::Arr(fields))]));
+                    let explicit = matches!(var.discr, rustc_middle::ty::VariantDiscr::Explicit(_));
+                    vs.push(J::Obj(vec![
+                        ("name", J::s(var.name.to_string())),
+                        ("fields", J::Arr(fields)),
+                        ("explicit_discr", J::Bool(explicit)),
+                    ]));
                 }
                 let (file, l, _c, _hl, _hc) = ex.loc(item.span);
                 adts.push(J::Obj(vec![
